@@ -243,6 +243,31 @@ def a3_query(prog, rep, f):
     rep.check(not problems, "A3-canonical", "%s: presigned query string self-consistency" % f.name, f.loc, "; ".join(problems) or "ok", function=f.name, construct="canonical")
 
 
+def a3_stable(prog, rep, f):
+    """The templates are compared by the names of their arguments, which stands for equality of values only while no name
+    changes its value between two of its uses: no variable handed to the formatting / hashing / signing calls is assigned
+    after one such use and before another (a parameter normalised before its first use is untouched by this)."""
+    def after(a, b):
+        return (a.block.id == b.block.id and b.i > a.i) or b.block.id in f.reach_from(a.block.id)
+    calls = [c for c in f.calls() if c.callee]
+    n = 0
+    for e in f.all_elems():
+        if not (e.is_assign or e.is_incdec):
+            continue
+        t = norm(e.kid(0))
+        if t[0] != "v":
+            continue
+        n += 1
+        uses = [c for c in calls if any(a is not None and t in set(subterms(norm(a))) for a in c.args) and not (e.is_assign and c.pos == getattr(e.kid(1).strip(), "pos", None))]
+        before = [c for c in uses if after(c, e)]
+        later = [c for c in uses if after(e, c)]
+        if before and later:
+            rep.bad("A3-stable", "%s: %s keeps one value across its uses" % (f.name, t[1]), e.where,
+                    "%s is used by %s(...) at line %d, assigned here, and used again by %s(...) at line %d: what is signed and what is returned differ"
+                    % (t[1], before[0].callee, before[0].line, later[0].callee, later[0].line), function=f.name, construct="reassigned:" + t[1])
+    rep.ok("A3-stable", "%s: no argument of the signing calls changes value between two uses" % f.name, f.loc, "%d assignments to variables examined" % n)
+
+
 def a4_pure(prog, rep):
     """A signature is a function of the call's arguments and the clock sample only: the signing code keeps no state
     between calls (a cached key or scope would make the result depend on call history)."""
@@ -262,6 +287,101 @@ def a4_pure(prog, rep):
                     if d and d[0].decl.get("kind") in ("global", "staticlocal"):
                         wr.append(e)
     rep.check(not wr, "A4-stateless", "no signing function writes a global or static variable", UNIT, "%s" % [e.loc for e in wr], function="aws_sign.c", construct="static-write")
+
+
+def a5_format(cfg, rep):
+    """util/asprintf.c (every template of this property goes through it): the string handed back is the complete formatted
+    string.  vsnprintf answers the length L the full output needs whatever space it was given (trusted C semantics, one L per
+    function since every pass formats the same format and arguments); so for every pass that writes somewhere, either the space
+    given is at least L + 1 where the pass is made, or every later use of what it wrote is reached only with L + 1 <= space
+    (sa/poly.py decides the inequalities; the allocation handed out is at least the space given)."""
+    from .. import poly
+    from ..poly import Lin
+    up = "util/asprintf.c"
+    prog = ir.Program([up], cfg)
+    rep.add_stats(prog)
+    u = prog.unit(up)
+    f = u.func("asprintf") or u.func("libcperciva_asprintf")
+    if f is None:
+        raise cdb.AnalysisBroken("anchor missing: asprintf in %s" % up)
+    L = Lin.var(("$fmtlen",))
+
+    def contract(A, call, st, cs):
+        r = Lin.var(("$ret", A.f.name, call.pos))
+        return [list(cs) + poly.cons("==", r, L) + poly.cons(">=", L, Lin.const(0)), list(cs) + poly.cons("<=", r, Lin.const(-1))]
+    A = poly.Analysis(f, quiet={"vsnprintf", "malloc", "strdup", "free", "__builtin_va_start", "__builtin_va_end"}, post={"vsnprintf": contract}).run()
+    passes = sorted(f.calls("vsnprintf"), key=lambda c: c.line)
+    if not passes:
+        raise cdb.AnalysisBroken("asprintf no longer formats with vsnprintf: the completeness rule has nothing to decide")
+    def after(a, b):
+        """element b may execute after element a"""
+        return (a.block.id == b.block.id and b.i > a.i) or b.block.id in f.reach_from(a.block.id)
+    writing = 0
+    for c in passes:
+        dst = norm(c.arg(0))
+        while dst[0] == "cast":
+            dst = dst[1]
+        if dst == ("c", 0):
+            continue
+        writing += 1
+        st = A.state_before(c)
+        size = A.lin(c.arg(1), st)
+        inst = "vsnprintf(%s, %s, ...)" % (show(dst), show(norm(c.arg(1))))
+        if size is None:
+            rep.bad("A5-format", inst, c.where, "the space given is not a linear quantity the analysis can follow", function=f.name, construct="space")
+            continue
+        # the space given does not exceed the object written
+        root = root_var(dst)
+        obj = None
+        if dst[0] == "v":
+            d = [x for x in f.all_elems() if x.cls == "DeclRefExpr" and x.decl and x.decl.get("id") == dst[2]]
+            t = u.types.get(d[0].ty) if d else None
+            if t and t.get("kind") == "array":
+                obj = Lin.const(t.get("size") or 0)
+        if obj is None:
+            # heap: the allocation stored into the same lvalue
+            for e in f.all_elems():
+                if e.is_assign and e.op == "=" and norm(e.kid(0)) == dst:
+                    r = e.kid(1).strip()
+                    if r is not None and r.cls == "CallExpr" and r.callee == "malloc" and f.dominates(e, c):
+                        obj = A.lin(r.arg(0), A.state_before(r))
+        okobj = obj is not None and A.holds(st, "<=", size, obj)
+        rep.check(okobj, "A5-format", inst + ": the space given is within the object written", c.where,
+                  "space %s, object %s" % (size, obj), function=f.name, construct="object")
+        if A.holds(st, ">=", size, L + Lin.const(1)):
+            rep.ok("A5-format", inst + ": complete", c.where, "space >= formatted length + 1 where the pass is made")
+            continue
+        # otherwise: every later use of what was written needs L + 1 <= space; only a constant space survives to the use
+        if not size.is_const():
+            rep.bad("A5-format", inst + ": complete", c.where, "the space given (%s) is not shown to hold the formatted length + 1" % size,
+                    function=f.name, construct="truncation")
+            continue
+        uses = []
+        for e in f.all_elems():
+            if e.cls == "CallExpr" and e.pos != c.pos and e.callee not in ("free",) and after(c, e):
+                for i, a in enumerate(e.args):
+                    if a is None:
+                        continue
+                    r = root_var(norm(a))
+                    if r is not None and root is not None and r == root and not (e.callee == "vsnprintf" and i == 0):
+                        uses.append(e)
+        if root is not None and root[0] == "v" and any(p["id"] == root[2] for p in f.params):
+            uses += [r for r in f.returns() if norm(r.kid(0)) != ("c", -1) and after(c, r)]
+        bad = [e for e in uses if A.state_before(e) is not None and not A.holds(A.state_before(e), ">=", size, L + Lin.const(1))]
+        rep.check(not bad, "A5-format", inst + ": complete wherever its output is used (%d uses)" % len(uses), (bad[0].where if bad else c.where),
+                  "the output is used where the formatted length may be %s or more: the string is cut short" % size,
+                  function=f.name, construct="truncation")
+    if not writing:
+        raise cdb.AnalysisBroken("asprintf: no formatting pass writes anywhere")
+    # what is returned on success is the formatted length
+    for r in f.returns():
+        v = norm(r.kid(0))
+        if v == ("c", -1):
+            continue
+        st = A.state_before(r)
+        l = A.lin(r.kid(0), st)
+        rep.check(l is not None and A.holds(st, "==", l, L), "A5-format", "asprintf returns the formatted length", r.where,
+                  "returned %s" % show(v), function=f.name, construct="length")
 
 
 def run(tier):
@@ -288,6 +408,12 @@ def run(tier):
     from . import c14
     c14.reported_rule(prog, rep, only_files=(UNIT,))
     c14.leak_rules(prog, rep, only_files=(UNIT,))
+    a5_format(cdb.HOST, rep)
+    # every hash and signature is printed by hexify (anchor of this property): table, nibble order, output layout (rules shared with C17)
+    from . import c17
+    hp = ir.Program(["util/hexify.c"], cdb.HOST)
+    rep.add_stats(hp)
+    c17.t2_hexify(hp, rep)
     variants = {"aws_sign_s3_headers": "hdr", "aws_sign_svc_headers": "hdr", "aws_sign_dynamodb_headers": "hdr", "aws_sign_s3_querystr": "qs"}
     for name, kind in variants.items():
         f = u.func(name)
@@ -296,6 +422,7 @@ def run(tier):
         if not rep.names(f, "t_now", "date", "datetime"):
             continue
         a1(prog, rep, f)
+        a3_stable(prog, rep, f)
         if kind == "hdr":
             a3_headers(prog, rep, f, None)
         else:
